@@ -16,8 +16,21 @@ Mirrors, function by function and with the same order of effects,
 
 The model describes the code that exists (after the repairs aad9766 `change_ref` registers the
 new reference first, and 626845c `_can_update_other` applies the rule of `_can_add_other`).
-Four behaviours of that code break the property (C18) and are reproduced here as they are;
+Six behaviours of that code break the property (C18) and are reproduced here as they are;
 they are named by the `trig…` predicates at the end of the file.
+
+Closed models.  `System.close_model` deletes the model's specs and takes the model out of the
+registry - nothing else: the `Model` object and its spaces stay fully usable through the handles
+the user holds (references, `_valid_to_refs`, `new_pandas` … all work as before; a second
+`close()` is a no-op since 0035a5d).  The model does the same: every operation on a closed model
+is performed as on an open one.  Only handles of DELETED SPACES are dead (`DeletedObjectError`,
+`Rej.dead`, state unchanged), and so are operations that name a model or space that never
+existed (there is no handle to call).
+
+Paths.  The key of an io is `(model, pathlib.Path(path))`: pathlib drops empty components and
+`.` but keeps `..` (`pathKey`).  The FILE a relative path denotes under the model's folder is
+given by the lexical normal form (`normPath`, `os.path.normpath`): `sub/../a.csv` is `a.csv`.
+`Spec.path` is the key as the code holds it (`spec.path.as_posix()`).
 
 Representation.
 * A Python object is a `Val`: a pandas object, another non-Interface object, or a modelx
@@ -34,6 +47,9 @@ Representation.
   `insertSpec` keeps the specs of one io adjacent, in the order `ios.items()` × `specs.values()`
   iterates them (which is what `get_spec_from_value` depends on).
 * Only relative paths (the io group is the model); no inheritance between spaces.
+* `setPath`: the `path` setter of a spec (`BaseIOSpec.path` → `BaseSharedIO.path` →
+  `IOManager.update_path`) moves the WHOLE io (every spec of the file) to the new key, at the end
+  of `ios`.
 -/
 namespace MxModel.IOSpec
 open MxModel.Names
@@ -96,7 +112,7 @@ deriving Repr
 
 inductive Rej
   | key | value | attribute | assertion | index | type
-  | dead        -- the harness does not send operations on closed models / deleted spaces
+  | dead        -- `DeletedObjectError` (handle of a deleted space), or: no such model / space
   | outOfDomain -- not modelled (an Interface as the new value of `update_pandas`)
 deriving DecidableEq, Repr
 
@@ -135,8 +151,47 @@ def spaceNamed (st : St) (m : Nat) (n : String) : Option Owner :=
   | some s => some s.1
   | none => none
 
+/-- the model was created (open, or closed: its handle works as before) -/
+def modelKnown (st : St) (m : Nat) : Bool := st.models.contains m || st.closed.contains m
+
+/-- the parent's handle is usable: a model that was created (open or closed), or a space of it
+that has not been deleted -/
 def ownerLive (st : St) (o : Owner) : Bool :=
-  st.models.contains o.model && (o.space == 0 || st.spaces.any (fun s => s.1 = o))
+  modelKnown st o.model && (o.space == 0 || st.spaces.any (fun s => s.1 = o))
+
+/-! ## Paths -/
+
+/-- split at `/` (`cur`: the component being read, reversed) -/
+def splitSlash : List Char → List Char → List (List Char)
+  | cur, [] => [cur.reverse]
+  | cur, c :: rest => if c = '/' then cur.reverse :: splitSlash [] rest else splitSlash (c :: cur) rest
+
+/-- the components of a path -/
+def comps (p : String) : List String := (splitSlash [] p.toList).map String.ofList
+
+def joinSlash : List String → String
+  | [] => "."
+  | [a] => a
+  | a :: b :: rest => a ++ "/" ++ joinSlash (b :: rest)
+
+/-- `pathlib.PurePosixPath(p).as_posix()` for a relative path: empty components and `.` are
+dropped, `..` is kept -/
+def pathKey (p : String) : String :=
+  joinSlash ((comps p).filter (fun c => c ≠ "" ∧ c ≠ "."))
+
+/-- `os.path.normpath` on the components of a relative path (`acc`: the result so far, reversed) -/
+def normComps : List String → List String → List String
+  | acc, [] => acc.reverse
+  | acc, c :: rest =>
+    if c = "" ∨ c = "." then normComps acc rest
+    else if c = ".." then
+      match acc with
+      | top :: acc' => if top = ".." then normComps (c :: acc) rest else normComps acc' rest
+      | [] => normComps [c] rest
+    else normComps (c :: acc) rest
+
+/-- the file location a relative path denotes below the model's folder (`os.path.normpath`) -/
+def normPath (p : String) : String := joinSlash (normComps [] (comps p))
 
 /-- `ModelImpl.new_ref` / `SpaceManager.new_ref` (no sub spaces): a new `ReferenceImpl` -/
 def mkRef (st : St) (o : Owner) (n : String) (v : Val) : Ref := ⟨st.nextRid, o, n, v⟩
@@ -387,13 +442,32 @@ def setSheet (st : St) (m : Nat) (v : Val) (sheet : Option String) : Res :=
       ({ st with specs := st.specs.map (setSheetMap σ.sid sheet) }, .ok ())
     else (st, .error .value)
 
+/-- `IOManager.update_path`: the io's specs get the new path -/
+def setPathMap (m : Nat) (old new : String) (τ : Spec) : Spec :=
+  if τ.group = m ∧ τ.path = old then { τ with path := new } else τ
+
+/-- `model.get_spec(value).path = path` → `IOManager.update_path(io, Path(path))`: nothing if the
+key is the io's own; `ValueError` if another io has the key; otherwise `del self.ios[key_old];
+self.ios[key] = io` - the io, with ALL its specs, moves to the new key at the end of `ios` -/
+def setPath (st : St) (m : Nat) (v : Val) (path : String) : Res :=
+  match getSpecFromValue st m v with
+  | none => (st, .error .value)
+  | some σ =>
+    if path = σ.path then (st, .ok ())
+    else if (ioSpecs st.specs σ.group path).isEmpty then
+      ({ st with specs := st.specs.filter (fun τ => ¬ (τ.group = σ.group ∧ τ.path = σ.path)) ++
+                          (ioSpecs st.specs σ.group σ.path).map (setPathMap σ.group σ.path path) },
+       .ok ())
+    else (st, .error .value)
+
 /-- `Model.del_spec(value)` -/
 def delSpecOf (st : St) (m : Nat) (v : Val) : Res :=
   match getSpecFromValue st m v with
   | none => (st, .error .value)
   | some σ => (delSpec st σ, .ok ())
 
-/-- `System.close_model`: `del_all_spec()`, then the model leaves the registry -/
+/-- `System.close_model` of a registered model: `del_all_spec()`, then the model leaves the
+registry (for a model that is not registered `close_model` returns at once: `stepR`) -/
 def closeModel (st : St) (m : Nat) : Res :=
   match rmDelAllSpec st m with
   | (st1, .error e) => (st1, .error e)
@@ -411,6 +485,7 @@ inductive Op
   | del (o : Owner) (name : String)
   | update (m : Nat) (old new : Val)
   | setSheet (m : Nat) (v : Val) (sheet : Option String)
+  | setPath (m : Nat) (v : Val) (path : String)
   | delSpec (m : Nat) (v : Val)
   | close (m : Nat)
 deriving Repr
@@ -423,7 +498,7 @@ def stepR (kw : List String) (st : St) : Op → Res
     if st.models.contains m || st.closed.contains m then (st, .error .dead)
     else ({ st with models := st.models ++ [m] }, .ok ())
   | .newSpace m s name =>
-    if !st.models.contains m || s = 0 || usedOwner st ⟨m, s⟩ then (st, .error .dead)
+    if !modelKnown st m || s = 0 || usedOwner st ⟨m, s⟩ then (st, .error .dead)
     else if (spaceNamed st m name).isSome || (refLookup st.refs ⟨m, 0⟩ name).isSome
         || !isValidName kw name then (st, .error .value)
     else ({ st with spaces := st.spaces ++ [(⟨m, s⟩, name)] }, .ok ())
@@ -433,25 +508,29 @@ def stepR (kw : List String) (st : St) : Op → Res
         || !isValidName kw name then (st, .error .value)
     else ({ st with cells := st.cells ++ [(o, name, scalar)] }, .ok ())
   | .newPandas o name path csv sheet data =>
-    if !ownerLive st o then (st, .error .dead) else newPandas kw st o name path csv sheet data
+    if !ownerLive st o then (st, .error .dead) else newPandas kw st o name (pathKey path) csv sheet data
   | .bind o name v =>
     if !ownerLive st o then (st, .error .dead) else setAttr kw st o name v
   | .del o name =>
     if !ownerLive st o then (st, .error .dead) else delAttr st o name
   | .update m old new =>
-    if !st.models.contains m then (st, .error .dead) else rmUpdateValue st m old new
+    if !modelKnown st m then (st, .error .dead) else rmUpdateValue st m old new
   | .setSheet m v sheet =>
-    if !st.models.contains m then (st, .error .dead) else setSheet st m v sheet
+    if !modelKnown st m then (st, .error .dead) else setSheet st m v sheet
+  | .setPath m v path =>
+    if !modelKnown st m then (st, .error .dead) else setPath st m v (pathKey path)
   | .delSpec m v =>
-    if !st.models.contains m then (st, .error .dead) else delSpecOf st m v
+    if !modelKnown st m then (st, .error .dead) else delSpecOf st m v
   | .close m =>
-    if !st.models.contains m then (st, .error .dead) else closeModel st m
+    if !modelKnown st m then (st, .error .dead)
+    else if st.closed.contains m then (st, .ok ())     -- not registered: `close_model` returns
+    else closeModel st m
 
 def step (kw : List String) (st : St) (op : Op) : St := (stepR kw st op).1
 
 def run (kw : List String) (st : St) (ops : List Op) : St := ops.foldl (step kw) st
 
-/-! ## The four triggers (behaviours of the code that break C18), as decidable predicates on
+/-! ## The six triggers (behaviours of the code that break C18), as decidable predicates on
 the state before an operation -/
 
 /-- C18-cells-name: `new_pandas(name, …)` where `name` is a scalar cells of the space –
@@ -480,8 +559,30 @@ def trigUpdateOnto (st : St) : Op → Bool
   | .update m old new => old != new && (alookup st.v2r (m, new)).isSome
   | _ => false
 
+/-- C18-closed-model-new-spec: `new_pandas` through the handle of a CLOSED model (or of one of
+its spaces) is accepted like any other; the io it creates stays in `IOManager.ios` for ever (a
+second `close()` returns at once) -/
+def trigClosedNew (st : St) : Op → Bool
+  | .newPandas o _ _ _ _ _ => st.closed.contains o.model
+  | _ => false
+
+/-- the io key an operation asks for -/
+def opKey : Op → Option (Nat × String)
+  | .newPandas o _ path _ _ _ => some (o.model, pathKey path)
+  | .setPath m _ path => some (m, pathKey path)
+  | _ => none
+
+/-- C18-path-alias: the operation asks for a key that another spec of the model holds in another
+SPELLING (`a.csv` / `sub/../a.csv`): the keys differ, so the request is not refused, the file is
+the same -/
+def trigPathAlias (st : St) (op : Op) : Bool :=
+  match opKey op with
+  | some (m, k) => st.specs.any (fun σ => σ.group = m ∧ normPath σ.path = normPath k ∧ σ.path ≠ k)
+  | none => false
+
 def clean (st : St) (op : Op) : Bool :=
   !trigCellsName st op && !trigDoubleSpec st op && !trigDirtyDelete st op && !trigUpdateOnto st op
+    && !trigClosedNew st op && !trigPathAlias st op
 
 /-- no operation of the history hits a trigger -/
 def AllClean (kw : List String) : St → List Op → Prop
